@@ -52,6 +52,9 @@ pub struct StoreCase {
     pub file: bool,
     pub policies: Vec<(u8, PSpec)>,
     pub keys: Vec<KeyRel>,
+    /// policy changes made through the actor while the document stays open and entries keep arriving: (before entry, policy)
+    #[serde(default)]
+    pub live_changes: Vec<(u16, PSpec)>,
 }
 
 #[derive(Serialize, Deserialize, Clone, Debug)]
@@ -173,7 +176,8 @@ impl Prop for C15 {
 
     fn strategy(_tier: Tier) -> BoxedStrategy<Case> {
         let pure = (pspec(), vec(keyrel(), 1..=8), vec(filter_string(), 0..=4)).prop_map(|(policy, keys, strings)| Case::Pure(Pure { policy, keys, strings }));
-        let store = (prop::bool::weighted(0.3), vec((0u8..3, pspec()), 1..=4), vec(keyrel(), 1..=4)).prop_map(|(file, policies, keys)| Case::Store(StoreCase { file, policies, keys }));
+        let store = (prop::bool::weighted(0.3), vec((0u8..3, pspec()), 1..=4), vec(keyrel(), 1..=6), vec((any::<u16>(), pspec()), 0..=2))
+            .prop_map(|(file, policies, keys, live_changes)| Case::Store(StoreCase { file, policies, keys, live_changes }));
         prop_oneof![12 => pure, 1 => store].boxed()
     }
 
@@ -333,7 +337,7 @@ fn check_store(ctx: &mut Ctx, c: &StoreCase) -> Outcome {
             }
         }
         // events: should_download of remote inserts = oracle(policy, key)
-        let pol = current[0].clone().unwrap_or(PSpec { nothing_except: false, filters: vec![] });
+        let mut pol = current[0].clone().unwrap_or(PSpec { nothing_except: false, filters: vec![] });
         let AnyStore { store, path } = st;
         let h = act::spawn(store);
         verif::set_clock(Some(T0 + 3));
@@ -341,6 +345,19 @@ fn check_store(ctx: &mut Ctx, c: &StoreCase) -> Outcome {
             let (tx, rx) = async_channel::bounded(64);
             es(h.open(ns, OpenOpts::default().sync().subscribe(tx)).await)?;
             for (i, k) in c.keys.iter().enumerate() {
+                for (at, p) in &c.live_changes {
+                    if crate::engine::idx(*at, c.keys.len()) == i {
+                        // the policy changes while the document is open and has already received entries
+                        es(h.set_download_policy(ns, to_policy(p)).await)?;
+                        pol = p.clone();
+                        if es(h.get_download_policy(ns).await)? != to_policy(p) {
+                            o.fail("C15/get-after-set", "through the actor, while open: get does not return the policy just set".to_string());
+                        }
+                        if i > 0 {
+                            o.class("policy-changed-while-open-after-entries-arrived");
+                        }
+                    }
+                }
                 let key = resolve_key(k, &pol);
                 note_nontrivial(&mut o, &pol, &key);
                 let e = sign(&nssec, &ESpec { a: (i % 3) as u8, k: key.clone(), t: T0 + i as u64, c: 1 });
